@@ -131,6 +131,8 @@ def i64_trunc_f64_u(value: ir.f64) -> ir.i64:
 
 
 def satured_truncate(value: float, lower_limit, upper_limit) -> int:
+    if math.isnan(value):
+        return 0
     if math.isinf(value):
         if value > 0:
             return upper_limit
